@@ -10,7 +10,8 @@
      TryLockf(p, ok)  non-blocking lockf on its byte; ok iff no other participant holds it
      ReadByte(p, v)   reads its counter v                      (with TryLockf: Mailbox!Acquire)
      Next(p, c)       takes the counter c for a message        (Mailbox!Send)
-     WriteByte(p)     stores the counter
+     WriteByte(p)     stores the counter - however the hold ends: a message that went out has
+                      used its counter even if the exchange then fails or is cancelled
      Unlockf(p)       releases the byte                         (with WriteByte: Mailbox!Release)
 
    Required: a byte is locked by at most one participant; a byte that was never written holds
